@@ -1,26 +1,30 @@
 (* C10 - the convex hull is the exact hull of the input coordinates.
-   This file holds only statements closed by [exact] and their Print Assumptions. *)
+   This file holds only statements closed by [exact] and their Print Assumptions.
+   [hull] is the model of _geometry.convex_hull (Model/HullM.v), [hull_of_members] the model of
+   the public entry points; points are (lon, lat) over Z, [cross o a b > 0] is a strict left
+   (counter-clockwise) turn o -> a -> b, [lt2] is the lexicographic order on (lon, lat).
+   "Consecutive" vertices are given by decomposition: the list is l1 ++ a :: b :: l2. *)
 From Coq Require Import Sorted Permutation.
-From GV Require Import Prelude HullM HullP.
+From GV Require Import Prelude HullM HullP HullP2 HullP3 HullP4 HullP5.
 Open Scope Z_scope.
 
-(* every hull vertex is an input coordinate *)
+(* ---- vertices are input coordinates -------------------------------------------------------- *)
 Theorem C10_hull_subset : forall l v, In v (hull l) -> In v l.
 Proof. exact hull_subset. Qed.
 Print Assumptions C10_hull_subset.
 
-(* the sort step is THE strictly increasing list of the distinct inputs *)
+(* ---- order and multiplicity of the input are irrelevant ------------------------------------ *)
+(* the sort-and-deduplicate step yields THE strictly increasing list with the same members *)
 Theorem C10_dedup_sort_spec : forall l s,
   StronglySorted lt2 s -> (forall x, In x s <-> In x l) -> dedup_sort l = s.
 Proof. exact dedup_sort_spec. Qed.
 Print Assumptions C10_dedup_sort_spec.
 
-(* order of the input is irrelevant *)
 Theorem C10_hull_perm : forall l l', Permutation l l' -> hull l = hull l'.
 Proof. exact hull_perm. Qed.
 Print Assumptions C10_hull_perm.
 
-(* multiplicity is irrelevant: the hull is a function of the SET of inputs *)
+(* the hull is a function of the SET of inputs *)
 Theorem C10_hull_same_set : forall l l', (forall x, In x l <-> In x l') -> hull l = hull l'.
 Proof. exact hull_same_set. Qed.
 Print Assumptions C10_hull_same_set.
@@ -28,3 +32,108 @@ Print Assumptions C10_hull_same_set.
 Theorem C10_hull_multiplicity : forall l, hull (l ++ l) = hull l.
 Proof. exact hull_multiplicity. Qed.
 Print Assumptions C10_hull_multiplicity.
+
+(* ---- degenerate inputs, exactly ------------------------------------------------------------ *)
+Theorem C10_hull_nil : hull [] = [].
+Proof. exact hull_nil. Qed.
+Print Assumptions C10_hull_nil.
+
+(* one distinct point, however often repeated *)
+Theorem C10_hull_one_point : forall l x, In x l -> (forall p, In p l -> p = x) -> hull l = [x].
+Proof. exact hull_one_point. Qed.
+Print Assumptions C10_hull_one_point.
+
+(* two distinct points, however often repeated: out and back *)
+Theorem C10_hull_two_points : forall l a b, In a l -> In b l -> lt2 a b ->
+  (forall p, In p l -> p = a \/ p = b) -> hull l = [a; b; a].
+Proof. exact hull_two_points. Qed.
+Print Assumptions C10_hull_two_points.
+
+(* all inputs on one line (at least two distinct): the two extreme inputs, out and back *)
+Theorem C10_hull_collinear : forall l a b, In a l -> In b l -> a <> b ->
+  (forall p q r, In p l -> In q l -> In r l -> cross p q r = 0) ->
+  exists lo hi, In lo l /\ In hi l /\ lt2 lo hi /\
+                (forall p, In p l -> le2 lo p /\ le2 p hi) /\ hull l = [lo; hi; lo].
+Proof. exact hull_collinear. Qed.
+Print Assumptions C10_hull_collinear.
+
+(* and only then: a three-element answer means the inputs are collinear *)
+Theorem C10_hull_three_collinear : forall l a b c, hull l = [a; b; c] ->
+  forall p q r, In p l -> In q l -> In r l -> cross p q r = 0.
+Proof. exact hull_three_collinear. Qed.
+Print Assumptions C10_hull_three_collinear.
+
+(* ---- closed ring ----------------------------------------------------------------------------- *)
+(* with two distinct inputs the answer is v :: mid ++ [v], and v is the lexicographically
+   smallest input (so the ring is pinned, not only up to rotation) *)
+Theorem C10_hull_closed : forall l a b, In a l -> In b l -> a <> b ->
+  exists v mid, hull l = v :: mid ++ [v] /\ mid <> [] /\ In v l /\ (forall p, In p l -> le2 v p).
+Proof. exact hull_closed. Qed.
+Print Assumptions C10_hull_closed.
+
+(* ---- no repeated vertex ---------------------------------------------------------------------- *)
+Theorem C10_hull_nodup : forall l, NoDup (removelast (hull l)).
+Proof. exact hull_nodup. Qed.
+Print Assumptions C10_hull_nodup.
+
+(* ---- counter-clockwise, no collinear vertex -------------------------------------------------- *)
+(* unless all inputs are collinear, every three consecutive vertices of the closed ring -
+   continued by its second vertex, so that the turn at the closing vertex is included - make a
+   strict left turn *)
+Theorem C10_hull_strict_left : forall l,
+  (exists p q r, In p l /\ In q l /\ In r l /\ cross p q r <> 0) ->
+  forall l1 a b c l2, hull l ++ [nth 1 (hull l) (0, 0)] = l1 ++ a :: b :: c :: l2 ->
+  cross a b c > 0.
+Proof. exact hull_strict_left. Qed.
+Print Assumptions C10_hull_strict_left.
+
+(* ---- contains every input (the stretch goal of DESIGN 5/C10, proved in full) ------------------ *)
+(* every input coordinate is on or to the left of every edge of the ring *)
+Theorem C10_hull_contains : forall l p, In p l ->
+  forall l1 a b l2, hull l = l1 ++ a :: b :: l2 -> cross a b p >= 0.
+Proof. exact hull_contains. Qed.
+Print Assumptions C10_hull_contains.
+
+(* ---- the public entry points return exactly that ring ----------------------------------------- *)
+(* GeoPolygon's constructor neither re-closes nor reverses the hull: it is closed and its
+   shoelace sum has the counter-clockwise sign; no members at all raise IndexError *)
+Theorem C10_entry_points : forall ms,
+  hull_of_members ms =
+  match concat ms with [] => Err IndexError | _ => Ok (hull (concat ms)) end.
+Proof. exact hull_of_members_spec. Qed.
+Print Assumptions C10_entry_points.
+
+(* ---- the hypotheses above are met by concrete inputs ------------------------------------------ *)
+Definition ex_square : list pt :=
+  [(1, 1); (0, 0); (2, 0); (1, 0); (2, 2); (0, 2); (0, 0); (2, 1); (1, 2)].
+
+(* not all collinear; repeats, points on edges and inside; a 4-vertex closed ring comes out *)
+Example C10_nonvacuous_convex :
+  (exists p q r, In p ex_square /\ In q ex_square /\ In r ex_square /\ cross p q r <> 0) /\
+  hull ex_square = [(0, 0); (2, 0); (2, 2); (0, 2); (0, 0)] /\
+  (* an input on an edge (cross = 0) and an input strictly inside (cross > 0) *)
+  In (1, 0) ex_square /\ cross (0, 0) (2, 0) (1, 0) = 0 /\
+  In (1, 1) ex_square /\ cross (0, 0) (2, 0) (1, 1) > 0.
+Proof.
+  split; [exists (0, 0), (2, 0), (2, 2); cbn; intuition discriminate|].
+  split; [vm_compute; reflexivity|]. cbn. intuition lia.
+Qed.
+
+Definition ex_line : list pt := [(2, 4); (0, 0); (1, 2); (2, 4); (-1, -2)].
+
+Example C10_nonvacuous_collinear :
+  In (0, 0) ex_line /\ In (1, 2) ex_line /\ (0, 0) <> (1, 2) /\
+  (forall p q r, In p ex_line -> In q ex_line -> In r ex_line -> cross p q r = 0) /\
+  hull ex_line = [(-1, -2); (2, 4); (-1, -2)].
+Proof.
+  split; [cbn; tauto|]. split; [cbn; tauto|]. split; [discriminate|].
+  split; [|vm_compute; reflexivity].
+  intros p q r Hp Hq Hr. cbn in Hp, Hq, Hr.
+  repeat match goal with H : _ \/ _ |- _ => destruct H | H : False |- _ => destruct H end;
+    subst; reflexivity.
+Qed.
+
+Example C10_nonvacuous_entry :
+  hull_of_members [[(0, 0); (2, 0)]; [(1, 1)]; [(1, 3); (0, 0)]] =
+  Ok [(0, 0); (2, 0); (1, 3); (0, 0)].
+Proof. vm_compute. reflexivity. Qed.
